@@ -193,7 +193,7 @@ class CallGraph:
             if cls is not None:
                 for klass in self.model.mro(cls):
                     if expr.attr in klass.class_assigns:
-                        return self._table_values(_ModuleScope(klass.module), klass.class_assigns[expr.attr], depth + 1)
+                        return self._table_values(_ClassScope(klass), klass.class_assigns[expr.attr], depth + 1)
                     init = klass.methods.get("__init__")
                     if init is not None:
                         for node in walk_own(init.node):
@@ -258,6 +258,10 @@ class CallGraph:
             return None
         targets = []
         for value, scope in values:
+            if isinstance(scope, _ClassScope) and isinstance(value, ast.Name) and value.id in scope.klass.methods:
+                if scope.klass.methods[value.id] not in targets:
+                    targets.append(scope.klass.methods[value.id])  # the plain function, as written in the class body
+                continue
             if isinstance(value, ast.Lambda):
                 inner_calls = [node for node in ast.walk(value.body) if isinstance(node, ast.Call)]
             else:
@@ -484,6 +488,14 @@ class _ModuleScope:
         self.node = ast.parse("def _():\n    pass").body[0]
 
 
+class _ClassScope(_ModuleScope):
+    """An expression written in a class body: the names of the class's own functions are visible in it."""
+
+    def __init__(self, klass):
+        super().__init__(klass.module)
+        self.klass = klass
+
+
 def _assigned_in(func, name):
     names = _ASSIGNED_CACHE.get(id(func.node))
     if names is None:
@@ -496,6 +508,42 @@ def _assigned_in(func, name):
                 names.add(node.id)
         _ASSIGNED_CACHE[id(func.node)] = names
     return name in names
+
+
+def _membership_guarded(func, subscript):
+    """TABLE[key] inside the body of ``if key in TABLE`` (also as one operand of an ``and``, an elif, or the body of a
+    conditional expression) with the key not assigned again in between."""
+    table, key = ast.dump(subscript.value), ast.dump(subscript.slice)
+
+    def tests_membership(test):
+        if isinstance(test, ast.Compare) and len(test.ops) == 1 and isinstance(test.ops[0], ast.In):
+            return ast.dump(test.left) == key and ast.dump(test.comparators[0]) == table
+        if isinstance(test, ast.BoolOp) and isinstance(test.op, ast.And):
+            return any(tests_membership(value) for value in test.values)
+        return False
+
+    key_names = {n.id for n in ast.walk(subscript.slice) if isinstance(n, ast.Name)}
+    for node in walk_own(func.node):
+        if isinstance(node, ast.IfExp) and tests_membership(node.test) and any(inner is subscript for inner in ast.walk(node.body)):
+            return True
+        if isinstance(node, ast.BoolOp) and isinstance(node.op, ast.And):
+            for index, value in enumerate(node.values):
+                if any(inner is subscript for inner in ast.walk(value)) and any(tests_membership(earlier) for earlier in node.values[:index]):
+                    return True
+        if isinstance(node, ast.If) and tests_membership(node.test):
+            inside = [statement for statement in node.body if any(inner is subscript for inner in ast.walk(statement))]
+            if not inside:
+                continue
+            reassigned = False
+            for statement in node.body:
+                if statement is inside[0]:
+                    break
+                for inner in ast.walk(statement):
+                    if isinstance(inner, ast.Name) and isinstance(inner.ctx, ast.Store) and inner.id in key_names:
+                        reassigned = True
+            if not reassigned:
+                return True
+    return False
 
 
 class EscapeAnalysis:
@@ -681,7 +729,7 @@ class EscapeAnalysis:
                 kind, name = target
                 classes = ()
                 if kind == "ext":
-                    classes = raiser_table.lookup_external(name, call)
+                    classes = raiser_table.lookup_external(name, call, func)
                     is_exception_class = name.startswith("builtins.") and isinstance(getattr(__import__("builtins"), name[9:], None), type) \
                         and issubclass(getattr(__import__("builtins"), name[9:]), BaseException)
                     if name not in raiser_table.EXTERNAL and name not in raiser_table.NO_RAISE and func.module.name != "cutplace.gui" \
@@ -699,6 +747,8 @@ class EscapeAnalysis:
         if name is None or isinstance(node.slice, ast.Constant):
             return []
         if raiser_table.is_constant_mapping(self.model, func.module, name):
+            if _membership_guarded(func, node):
+                return []
             return [Item("builtins.KeyError", (func.qualname, node.lineno, ast.unparse(node)[:70]))]
         return []
 
